@@ -44,10 +44,6 @@ structure Coll where
   ttlIndexes : List Index := []       -- `_ttl_indexes`
   forceCreated : Bool := false
   nextOid : Nat := 1000
-  /-- store keys of the documents held as `OrderedDict` (the ones built by an upsert through
-      `_discard_operators`): two OrderedDicts compare order-sensitively, which the change
-      detection `existing_document != snapshot` of `_apply_update` inherits -/
-  od : List Val := []
   deriving Inhabited
 
 def Coll.empty : Coll := {}
@@ -86,15 +82,7 @@ def Coll.setDoc (c : Coll) (k d : Val) : Coll :=
 def Coll.storeDoc (c : Coll) (k d : Val) : Coll := { c.setDoc k d with forceCreated := true }
 
 def Coll.delDoc (c : Coll) (k : Val) : Coll :=
-  { c with docs := c.docs.filter (fun p => !pyEq p.1 k), od := c.od.filter (fun x => !pyEq x k) }
-
-def Coll.isOD (c : Coll) (k : Val) : Bool := c.od.any (fun x => pyEq x k)
-
-/-- `OrderedDict.__eq__` against another OrderedDict: dict equality and the same key order -/
-def pyEqOrdered (a b : Val) : Bool :=
-  match a, b with
-  | .doc fs, .doc gs => pyEq a b && dkeys fs == dkeys gs
-  | _, _ => pyEq a b
+  { c with docs := c.docs.filter (fun p => !pyEq p.1 k) }
 
 /-- `is_created` (store.py:79-81) -/
 def Coll.isCreated (c : Coll) : Bool := !c.docs.isEmpty || !c.indexes.isEmpty || c.forceCreated
@@ -149,9 +137,7 @@ def expireIndex (now : Int) (c : Coll) (ix : Index) : R Coll :=
       else match ix.keys with
         | [] => .error .other              -- StopIteration on an empty key list
         | (field, _) :: _ =>
-          pure { c with docs := c.docs.filter (fun p => !meetsExpiry field secs now p.2),
-                        od := c.od.filter (fun k =>
-                          !(c.docs.any (fun p => meetsExpiry field secs now p.2 && pyEq p.1 k))) }
+          pure { c with docs := c.docs.filter (fun p => !meetsExpiry field secs now p.2) }
 
 /-- `_remove_expired_documents()` -/
 def expire (now : Int) (c : Coll) : R Coll :=
@@ -173,20 +159,34 @@ def iterDocuments (now : Int) (c : Coll) (filter : Val) : R (Coll × List Val) :
 
 /-! ### insert (collection.py:488-548) -/
 
+/-- the look-up value of one indexed key: `{'$eq': value}` — the value is DATA, also when it is
+    an embedded document whose keys start with `$` -/
+def eqCond (v : Val) : Val := .doc [("$eq", v)]
+
+/-- `find_kwargs` of `_ensure_uniques`: `{key: {'$eq': get_value_by_dot(new_data, key)}}`, null
+    for a key the document lacks (KeyError) -/
 def valuesFor (keys : List (String × Val)) (d : Val) : R Fields :=
   keys.foldlM (fun acc kv =>
     match getByDot d kv.1 with
-    | .ok v => .ok (dset kv.1 v acc)
-    | .error .keyErr => .ok (dset kv.1 .null acc)
+    | .ok v => .ok (dset kv.1 (eqCond v) acc)
+    | .error .keyErr => .ok (dset kv.1 (eqCond .null) acc)
     | .error e => .error e) []
 
-/-- `_ensure_uniques(new_data)`; the document is already in the store -/
+/-- `value['$eq'] is None` -/
+def isNullCond (kv : String × Val) : Bool :=
+  match kv.2 with
+  | .doc [(_, .null)] => true
+  | _ => false
+
+/-- `_ensure_uniques(new_data)`; the document is already in the store.  Per unique index the
+    look-up is `{key: {'$eq': value}, …}` (inside `{'$and': [partialFilterExpression, …]}` for a
+    partial index): each indexed value is compared as data by the `$eq` operator. -/
 def ensureUniques (now : Int) (c : Coll) (newData : Val) : R Coll :=
   c.indexes.foldlM (fun c ix =>
     if !ix.unique then pure c
     else do
       let kwargs ← valuesFor ix.keys newData
-      let skip := ix.sparse && kwargs.all (fun kv => match kv.2 with | .null => true | _ => false)
+      let skip := ix.sparse && kwargs.all isNullCond
       if skip then pure c
       else do
         let filter := match ix.partialFilter with
@@ -269,6 +269,20 @@ def emptyOperatorCheck (cfg : Cfg) (document : Fields) : R Unit :=
       | none => false) then .error .writeErr
   else .ok ()
 
+/-- `_validate_update_operators(document)` (collection.py): the walk over the operator names lives
+    in the Update model (`Update.validateOps`: a known operator is passed over; an unknown key after
+    the first is refused, ValueError "Invalid modifier specified"; an unknown first key is refused
+    when some key starts with `$`, ValueError "field names cannot start with $", else the document
+    is a replacement and the walk stops).  The ORDER of this check relative to the store accesses
+    is what the Store model adds. -/
+def validateUpdateOperators (document : Fields) : R Unit := validateOps document
+
+/-- what `_apply_update` checks of the update document before any document is looked for: the
+    pre-5.0 "empty operator" WriteError, then the operator names -/
+def updatePrecheck (cfg : Cfg) (document : Fields) : R Unit := do
+  emptyOperatorCheck cfg document
+  validateUpdateOperators document
+
 structure UpdateResult where
   n : Nat
   nModified : Nat
@@ -293,10 +307,12 @@ def updateLoop (now : Int) (spec document : Val) (nowV : Val) (multi : Bool) :
         match applyUpdate spec document nowV false cur with
         | .error e => (c, .error e)
         | .ok new =>
-          if (if c.isOD key then pyEqOrdered new cur else pyEq new cur) then
-            -- `existing_document != snapshot` is Python `!=`: a change of key order or of
-            -- numeric type (1 → 1.0 → True) is not "modified", but the document was edited in place:
-            -- the unique indexes are checked all the same (the `else` branch of the change test)
+          if pyEq new cur then
+            -- `_copy_field(existing_document, dict) != snapshot` is Python `!=` between plain
+            -- dicts (whatever built the stored document - an upsert stores an OrderedDict): a
+            -- change of key order or of numeric type (1 → 1.0 → True) is not "modified", but the
+            -- document was edited in place: the unique indexes are checked all the same (the
+            -- `else` branch of the change test)
             let c0 := c.setDoc key new
             match ensureUniques now c0 new with
             | .error e => (c, .error e)
@@ -315,17 +331,12 @@ def updateLoop (now : Int) (spec document : Val) (nowV : Val) (multi : Bool) :
                 if multi then updateLoop now spec document nowV multi rest c2 (matched + 1) (updated + 1)
                 else (c2, .ok (matched + 1, updated + 1))
 
-/-- the document an upsert inserts: the seed built from the filter (`_expand_dots`,
-    `_discard_operators`) with the update applied to it as to an inserted document -/
+/-- the document an upsert inserts: the seed built from the filter's equality conditions
+    (`Update.upsertSeed`: `_discard_operators` first, then `_expand_dots` on what is left) with the
+    update applied to it as to an inserted document -/
 def upsertDoc (spec document nowV : Val) (ss : Fields) (idv : Val) : R Val := do
-  let expanded ← expandDots (dset "_id" idv ss)
-  let seed := (discardOps (.doc expanded)).1
-  -- `_expand_dots` stores the filter's `_id` sub-document by reference and writes
-  -- the `_id.x` conditions into it: `spec['_id']` is that same, now larger, object
-  let spec' := match dget "_id" ss, dget "_id" expanded with
-    | some (.doc _), some (.doc e) => Val.doc (dset "_id" (.doc e) ss)
-    | _, _ => spec
-  applyUpdate spec' document nowV true seed
+  let seed ← upsertSeed ss idv
+  applyUpdate spec document nowV true seed
 
 /-- `_update` / `_apply_update(spec, document, upsert, multi)`; options are checked by the callers.
     (The rollback of `_update` re-assigns the snapshot with `self._store[key] = snapshot`, which
@@ -338,8 +349,8 @@ def applyUpdateColl (cfg : Cfg) (now : Int) (c : Coll) (spec0 document0 : Val) (
   let nowV := patchDT (Val.date now none)     -- `$currentDate` normalises the clock value
   match spec, document with
   | .doc ss, .doc dfs =>
-    match emptyOperatorCheck cfg dfs with
-    | .error e => (c, .error e)
+    match updatePrecheck cfg dfs with
+    | .error e => (c, .error e)      -- refused before any document is looked for
     | .ok () =>
       -- `_iter_documents(spec)`: expiry, validation on an empty store, snapshot
       match (do
@@ -371,12 +382,7 @@ def applyUpdateColl (cfg : Cfg) (now : Int) (c : Coll) (spec0 document0 : Val) (
               match insertDoc now c4 built with
               -- a rejected upsert insert: the flag as `insertRejected` leaves it
               | .error e => (c4.markStored (insertStored now c4 built), .error e)
-              | .ok (c5, newId) =>
-                -- the inserted object is the OrderedDict built by `_discard_operators`
-                let c6 := match storeKey newId with
-                  | .ok k => { c5 with od := c5.od ++ [k] }
-                  | .error _ => c5
-                (c6, .ok ⟨1, 0, some newId, false⟩)
+              | .ok (c5, newId) => (c5, .ok ⟨1, 0, some newId, false⟩)
   | _, _ => (c, .error .typeErr)
 
 /-! ### delete, reads -/
@@ -509,7 +515,7 @@ def dropIndexesColl (c : Coll) : Coll := { c with indexes := [], ttlIndexes := [
 
 /-- `CollectionStore.drop()` -/
 def dropColl (c : Coll) : Coll :=
-  { c with docs := [], indexes := [], ttlIndexes := [], forceCreated := false, od := [] }
+  { c with docs := [], indexes := [], ttlIndexes := [], forceCreated := false }
 
 /-- names listed by `index_information()` -/
 def indexNames (c : Coll) : List String :=
